@@ -274,8 +274,13 @@ func (ss *Session) NextHand(sc *Script) *Hand {
 }
 
 // NewPlayerID returns a fresh player id.
+// Every third newcomer gets the upper-case twin of an earlier player's id (p3 / P3): for every look-up of the table,
+// the seat manager and the hand these are two different players (round 7).
 func (ss *Session) NewPlayerID() string {
 	id := fmt.Sprintf("p%d", ss.NextID)
+	if ss.NextID%3 == 2 {
+		id = fmt.Sprintf("P%d", ss.NextID/2)
+	}
 	ss.NextID++
 	return id
 }
